@@ -10,23 +10,30 @@ For every generated history, after EVERY step:
     ____refcount__, weakrefs to the lent objects);
   * correspondence: the complete observable state is compared with the extracted model (model/Refcount.v) run with the
     parameters regenerated from the source tree.
-A second family of histories lends user-class instances (every fresh proxy triggers a nested HANDLE_INSPECT exchange,
-served by letting the owner run while the peer unboxes); there the oracle alone is evaluated."""
-import gc, struct, threading, time, weakref, zlib
+A second family of histories lends user-class instances, same-named classes and modules (every fresh proxy triggers a
+nested HANDLE_INSPECT exchange, served by letting the owner run while the peer unboxes), also with the object's key
+changing while it is lent; there the oracle alone is evaluated.
+Histories also contain remote calls that raise (the connection keeps the last traceback), operations after a close and
+closes during which the before_closed hook or the service's on_disconnect raises."""
+import gc, struct, sys, threading, time, types, weakref, zlib
 from harness import common as C
 
 META = {
     "level": "proof",
     "level_text": "Theorems over all finite histories of an executable two-party model of RefCountingColl/_box/_unbox/_handle_del/"
-                  "BaseNetref.__init__/__del__ (props/C10.v): counting invariant, alive-while-held and no KeyError at the owner in "
-                  "any interleaving, release at quiescence, close releases everything; the constants/comparison/count sent by the "
-                  "finalizer are regenerated from the code on every run and tied by reflexivity; the extracted model is compared "
-                  "step by step with two real connections whose message delivery the harness controls. Proof is the right level: "
-                  "the property quantifies over all interleavings of two message streams.",
+                  "BaseNetref.__init__/__del__/_last_traceback/_cleanup/close (props/C10.v) for lent objects whose proxy class the peer "
+                  "already knows and whose key is stable: counting invariant, alive-while-held and no KeyError at the owner in any "
+                  "interleaving (also with raising calls), requests through held proxies are served; release at quiescence and after "
+                  "drop+drain for histories without raising calls, with witness theorems that a raising call (kept traceback), a key "
+                  "change, a send after close or a raising on_disconnect break the respective clause when the generated facts say so; "
+                  "constants/comparison/finalizer count/close-path facts are regenerated from the code on every run and tied by "
+                  "reflexivity; the extracted model is compared step by step with two real connections whose message delivery the "
+                  "harness controls. Proof is the right level: the property quantifies over all interleavings of two message streams.",
     "level_note": "Trusted: Coq kernel, pygen, extraction + driver, harness. CPython reference counting runs a proxy's finalizer as soon "
-                  "as the peer application drops its last reference (the model's Drop is 'finalizer has run'); one thread per "
-                  "connection. The model covers objects whose netref class the peer already knows (builtin types: no nested "
-                  "HANDLE_INSPECT); user-class instances are covered by the implementation-level oracle only.",
+                  "as the last reference goes (the model's Drop is 'finalizer has run'); one thread per connection. NOT covered by the "
+                  "theorems, only by the implementation-level oracle: user-class instances, classes and modules (nested HANDLE_INSPECT for "
+                  "every fresh proxy, several live proxies of one object) and objects whose key changes while lent (the model's Morph "
+                  "operation states the mechanism but is not validated by correspondence).",
     "technique": "Coq proof by induction over operation lists with a counting invariant; regenerated parameters tied by reflexivity; "
                  "differential correspondence of the extracted model with real connection pairs under harness-controlled delivery",
     "gen": ["colls"],
@@ -48,11 +55,14 @@ from rpyc.core.service import VoidService
 from rpyc.lib import get_id_pack, Timeout
 from rpyc.lib.colls import RefCountingColl
 
-STD_PARAMS = [0, 1, 0, 1, 1, 1, [0], 1]
+STD_PARAMS = [0, 1, 0, 1, 1, 1, [0], 1, 0, 0, 1]     # fallback only: the facts of the pinned tree
 _HDR = struct.Struct("!LB")
 
 
 # ------------------------------------------------------------------ in-memory transport
+
+LONG = 60.0         # generous wall-clock bound for exchanges that must succeed; every wait returns as soon as it can
+
 
 class MemStream(object):
     """one endpoint of an in-memory duplex byte stream; the harness inspects `inbox` (bytes written by the other side
@@ -65,6 +75,7 @@ class MemStream(object):
         self.peer = None
         self._closed = False
         self.n_exc = 0              # MSG_EXCEPTION frames written by this endpoint
+        self.n_keyerr = 0           # ... of which KeyError
 
     @staticmethod
     def pair():
@@ -114,8 +125,16 @@ class MemStream(object):
             raise EOFError("stream closed")
         if len(data) > _HDR.size:
             ln, comp = _HDR.unpack_from(data, 0)
-            if not comp and ln + _HDR.size + 1 == len(data) and brine.load(bytes(data[_HDR.size:_HDR.size + ln]))[0] == consts.MSG_EXCEPTION:
-                self.n_exc += 1
+            if ln + _HDR.size + 1 == len(data):
+                body = bytes(data[_HDR.size:_HDR.size + ln])
+                m = brine.load(zlib.decompress(body) if comp else body)
+                if m[0] == consts.MSG_EXCEPTION:
+                    self.n_exc += 1
+                    try:
+                        if m[2][0][1] == "KeyError":
+                            self.n_keyerr += 1
+                    except Exception:
+                        pass
         p = self.peer
         with p.cond:
             if not p._closed:           # a closed peer silently swallows (like a socket buffer before the RST)
@@ -148,7 +167,7 @@ def _walk(box, out):
         out.append(("?", label))
 
 
-def decode(frame, idmap):
+def decode(frame, idmap, bad_callee=None):
     """one frame -> the model's message vocabulary (see Refcount.sx_msg); ids not in idmap are ignored"""
     msg, seq, args = brine.load(frame)
     if msg == consts.MSG_EXCEPTION:
@@ -170,7 +189,9 @@ def decode(frame, idmap):
     if handler == consts.HANDLE_CALL:
         if L and items[0][0] == "L" and items[0][1] in idmap:
             flag = V[0][0] if V and isinstance(V[0], tuple) and V[0] else (V[0] if V else 0)
-            return ["use", L, 1 if flag else 0]
+            return ["use", L, flag if flag in (0, 1, 2) else 1]
+        if bad_callee is not None and items and items[0] == ("L", bad_callee):
+            return ["callraise", R]
         return ["call", R]
     if handler == consts.HANDLE_CLOSE:
         return ["close"]
@@ -178,10 +199,18 @@ def decode(frame, idmap):
 
 
 # ------------------------------------------------------------------ the two parties
+# every lendable object k answers a call (flag, *rest): flag 0 -> k, flag 1 -> its first argument (by reference),
+# flag 2 -> raises
+
+def _answer(i, flag, rest):
+    if flag == 2:
+        raise ValueError("lent object %d was asked to raise" % i)
+    return rest[0] if (flag and rest) else i
+
 
 def make_function(i):
     def lent(flag=0, *rest):
-        return rest[0] if (flag and rest) else i
+        return _answer(i, flag, rest)
     return lent
 
 
@@ -192,7 +221,40 @@ class Thing(object):
         self.i = i
 
     def __call__(self, flag=0, *rest):
-        return rest[0] if (flag and rest) else self.i
+        return _answer(self.i, flag, rest)
+
+
+class Thing2(Thing):
+    """what a Thing turns into when the owner application reassigns its __class__ (its key changes)"""
+
+
+def make_class(i):
+    """distinct classes that all carry the same qualified name"""
+    class Lent(object):
+        idx = i
+
+        def __new__(cls, flag=0, *rest):
+            return _answer(cls.idx, flag, rest)
+    return Lent
+
+
+_modcount = [0]
+
+
+def make_module(i):
+    _modcount[0] += 1
+    m = types.ModuleType("c10_lent_module_%d" % _modcount[0])
+    m.i = i
+    sys.modules[m.__name__] = m
+    return m
+
+
+class OwnerService(VoidService):
+    pair = None
+
+    def on_disconnect(self, conn):
+        if self.pair is not None and self.pair.disc_raises:
+            raise RuntimeError("on_disconnect failed")
 
 
 def _idp(x):
@@ -216,15 +278,49 @@ def _show(x):
     return "<proxy %r>" % (_idp(x),) if isinstance(x, netref.BaseNetref) else repr(x)[:200]
 
 
+def tb_references(tb, target):
+    """do the frames kept alive by traceback tb (its own frames and their callers, f_back) reference `target`
+    (directly or inside tuples)?"""
+    def inside(v, depth=0):
+        if v is target:
+            return True
+        if type(v) is tuple and depth < 4:
+            return any(inside(x, depth + 1) for x in v)
+        return False
+    seen = set()
+    while tb is not None:
+        f = tb.tb_frame
+        while f is not None and id(f) not in seen:
+            seen.add(id(f))
+            try:
+                if any(inside(v) for v in f.f_locals.values()):
+                    return True
+            except Exception:
+                pass
+            f = f.f_back
+        tb = tb.tb_next
+    return False
+
+
 class Pair(object):
     """owner connection A, peer connection B, `nobj` lendable objects, and the peer application's list `held`"""
 
     def __init__(self, nobj, kind="function"):
         sa, sb = MemStream.pair()
         self.sa, self.sb = sa, sb
-        cfg = {"sync_request_timeout": 5}
-        self.A = Connection(VoidService(), Channel(sa), config=dict(cfg, connid="owner"))
+        self.hook_raises = False
+        self.disc_raises = False
+        pair = self
+
+        def before_closed(root):
+            if pair.hook_raises:
+                raise RuntimeError("before_closed hook failed")
+        svc = OwnerService()
+        svc.pair = self
+        cfg = {"sync_request_timeout": LONG}
+        self.A = Connection(svc, Channel(sa), config=dict(cfg, connid="owner", before_closed=before_closed))
         self.B = Connection(VoidService(), Channel(sb), config=dict(cfg, connid="peer"))
+        self.A._remote_root = True      # close() evaluates self.root for the hook; no bootstrap exchange in this harness
         self.held = []
         held = self.held
 
@@ -236,26 +332,46 @@ class Pair(object):
                     else:
                         held.append(x)
             flat(xs)
-        self.keep_fn = keep
-        # the owner's handle on the peer's `keep`: what B._box(keep) / A._unbox(...) do, without a bootstrap exchange
-        kid = get_id_pack(keep)
+
+        def keep_bad(*xs):
+            raise ValueError("the peer's function raises")
+        self.keep_fn, self.keep_bad_fn = keep, keep_bad
+        # the owner's handles on the peer's functions: what B._box(f) / A._unbox(...) do, without a bootstrap exchange
+        kid, bid = get_id_pack(keep), get_id_pack(keep_bad)
         self.B._local_objects.add(kid, keep)
+        self.B._local_objects.add(bid, keep_bad)
         self.keep = self.A._unbox((consts.LABEL_REMOTE_REF, kid))
+        self.keep_bad = self.A._unbox((consts.LABEL_REMOTE_REF, bid))
+        self.bad_key = (str(bid[0]), bid[1], bid[2])
+        # every proxy the peer connection creates is remembered weakly (instance-attribute wrapper around _netref_factory)
+        self.created = []
+        factory, created = self.B._netref_factory, self.created
+
+        def remembering_factory(id_pack):
+            px = factory(id_pack)
+            created.append(weakref.ref(px))
+            return px
+        self.B._netref_factory = remembering_factory
         self.kind = kind
-        self.objs = [make_function(i) if kind == "function" else Thing(i) for i in range(nobj)]
+        mk = {"function": make_function, "instance": Thing, "class": make_class, "module": make_module}[kind]
+        self.objs = [mk(i) for i in range(nobj)]
         self.wr = [weakref.ref(o) for o in self.objs]
         self.keys = [get_id_pack(o) for o in self.objs]
         self.idmap = {(str(k[0]), k[1], k[2]): i for i, k in enumerate(self.keys)}
         self.nobj = nobj
-        self.pendingA = []
-        self.use_results = []       # (k, is_exc, plain value or None)
+        self.pendingA = []          # (AsyncResult, an exception is expected)
+        self.use_results = []       # (k, mode, is_exc, plain value or None)
         self.closed = False
+        self.close_fault = 0
+        self.close_by_peer = False
+        self.empty_after_close = None
         self.bad_results = []
+        self.morphed = set()
 
     # --- observation
     def in_flight(self, to_peer):
         s = self.sb if to_peer else self.sa
-        return [decode(f, self.idmap) for f in s.frames()]
+        return [decode(f, self.idmap, self.bad_key) for f in s.frames()]
 
     def slots(self):
         d = self.A._local_objects._dict
@@ -264,6 +380,21 @@ class Pair(object):
     def foreign_keys(self):
         return [k for k in self.A._local_objects._dict if k not in self.keys]
 
+    def live_proxies(self, k=None):
+        """the proxies of lent objects that are alive at the peer (whoever references them)"""
+        out = []
+        alive = []
+        for w in self.created:
+            x = w()
+            if x is not None:
+                alive.append(w)
+                j = self.idmap.get(_idp(x))
+                if j is not None and (k is None or j == k):
+                    out.append(x)
+            del x
+        self.created[:] = alive
+        return out
+
     def proxy_counts(self):
         """per object: (refcount of the cached live proxy or None, refcounts of all distinct live proxies, number of
         references the peer application holds)"""
@@ -271,52 +402,87 @@ class Pair(object):
         out = []
         per = [dict() for _ in range(self.nobj)]
         holds = [0] * self.nobj
-        for x in self.held:
+        for x in self.live_proxies() + self.held:
             k = self.idmap.get(_idp(x))
             if k is not None:
                 per[k][id(x)] = _rc(x)
+        x = None
+        for x in self.held:
+            k = self.idmap.get(_idp(x))
+            if k is not None:
                 holds[k] += 1
+        x = None
         for i, key in enumerate(self.idmap):
             p = cache.get(key) if not self.B.closed else None      # WeakValueDict.get: None once the proxy is dead
-            if p is not None:
+            if p is not None and self.idmap.get(_idp(p)) == i:
                 per[i][id(p)] = _rc(p)
             out.append((_rc(p) if p is not None else None, sorted(per[i].values()), holds[i]))
             del p
+        return out
+
+    def unheld_proxies(self, k):
+        """live proxies of object k that the peer application does not reference: (count, referenced by B._last_traceback)"""
+        mine = set(id(x) for x in self.held)
+        out = []
+        for x in self.live_proxies(k):
+            if id(x) not in mine:
+                out.append((_rc(x), tb_references(self.B._last_traceback, x)))
         return out
 
     def alive(self):
         return [w() is not None for w in self.wr]
 
     # --- operations
-    def send(self, ks, nest=0):
+    def _args(self, ks, nest):
         ks = [k for k in ks if self.objs[k] is not None]
         objs = [self.objs[k] for k in ks]
         if nest == 1 and objs:
-            args = (tuple(objs),)
-        elif nest == 2 and len(objs) >= 2:
-            args = (objs[0], tuple(objs[1:]))
-        elif nest == 3 and len(objs) >= 2:
-            args = ((objs[0], (objs[1],)),) + tuple(objs[2:])
-        else:
-            args = tuple(objs)
-        self.pendingA.append(netref.asyncreq(self.keep, consts.HANDLE_CALL, args, ()))
+            return (tuple(objs),)
+        if nest == 2 and len(objs) >= 2:
+            return (objs[0], tuple(objs[1:]))
+        if nest == 3 and len(objs) >= 2:
+            return ((objs[0], (objs[1],)),) + tuple(objs[2:])
+        return tuple(objs)
+
+    def send(self, ks, nest=0, boom=False):
+        args = self._args(ks, nest)
+        try:
+            res = netref.asyncreq(self.keep_bad if boom else self.keep, consts.HANDLE_CALL, args, ())
+        except EOFError:
+            if self.closed:
+                return          # lending through a closed connection is refused
+            raise
+        self.pendingA.append((res, boom))
+
+    def _collect_dropped_traceback(self, conn, before):
+        """a traceback that _last_traceback no longer references is cyclic garbage (frame -> local `tb` -> frame): what its frames
+        kept alive goes when the cycle collector runs.  The harness runs it at this defined point (automatic collection is off
+        while histories run), the model finalizes at the same point"""
+        if id(conn._last_traceback) != before:
+            gc.collect()
 
     def poll_peer(self):
+        before = id(self.B._last_traceback)     # not the traceback itself: the frames of the next traceback reach this frame (f_back)
+        try:
+            return self._poll_peer()
+        finally:
+            self._collect_dropped_traceback(self.B, before)
+
+    def _poll_peer(self):
         if self.kind == "function":
             return self.B.poll()
         # unboxing a user-class instance makes the peer wait for the owner's HANDLE_INSPECT answer: let the owner serve
         res = []
         t = threading.Thread(target=lambda: res.append(self._guard(self.B.poll)), daemon=True)
         t.start()
-        n = 0
+        deadline = time.monotonic() + LONG
         while t.is_alive():
             if any(m == ["other", consts.HANDLE_INSPECT] for m in self.in_flight(False)):
                 self.A.poll()
             else:
                 t.join(0.0002)
-            n += 1
-            if n > 20000:
-                raise RuntimeError("peer did not finish unboxing")
+            if time.monotonic() > deadline:
+                raise RuntimeError("peer did not finish unboxing within %d s" % LONG)
         if res and isinstance(res[0], Exception):
             raise res[0]
         return res[0] if res else False
@@ -329,10 +495,17 @@ class Pair(object):
             return e
 
     def poll_owner(self):
-        return self.A.poll()
+        before = id(self.A._last_traceback)
+        try:
+            return self.A.poll()
+        finally:
+            self._collect_dropped_traceback(self.A, before)
+
+    def _key(self, k):
+        return (str(self.keys[k][0]), self.keys[k][1], self.keys[k][2])
 
     def _find(self, k):
-        key = (str(self.keys[k][0]), self.keys[k][1], self.keys[k][2])
+        key = self._key(k)
         for i, x in enumerate(self.held):
             if _idp(x) == key:
                 return i
@@ -344,34 +517,52 @@ class Pair(object):
             del self.held[i]
 
     def drop_all(self, k):
-        key = (str(self.keys[k][0]), self.keys[k][1], self.keys[k][2])
+        key = self._key(k)
         self.held[:] = [x for x in self.held if _idp(x) != key]
 
     def drop_index(self, i):
         if self.held:
             del self.held[i % len(self.held)]
 
-    def use(self, c, args, ret):
+    def use(self, c, args, mode):
+        if self.kind == "module":
+            return False            # modules are not callable
         idx = [self._find(k) for k in [c] + list(args)]
         if any(i is None for i in idx):
             return False
         ps = [self.held[i] for i in idx]
-        res = netref.asyncreq(ps[0], consts.HANDLE_CALL, (1 if ret else 0,) + tuple(ps[1:]), ())
+        res = netref.asyncreq(ps[0], consts.HANDLE_CALL, (mode,) + tuple(ps[1:]), ())
         del ps
         held, log = self.held, self.use_results
 
-        def got(r, c=c):
+        def got(r, c=c, mode=mode):
             if r._is_exc:
-                log.append((c, True, None))
+                log.append((c, mode, True, type(r._obj).__name__))
             elif isinstance(r._obj, netref.BaseNetref):
                 held.append(r._obj)
-                log.append((c, False, "ref"))
+                log.append((c, mode, False, "ref"))
             else:
-                log.append((c, False, r._obj))
+                log.append((c, mode, False, r._obj))
         res.add_callback(got)
         return True
 
     def forget(self, k):
+        if self.kind == "module":
+            return          # a module stays registered in sys.modules: its owner application has not let go (see morph)
+        self.objs[k] = None
+
+    def morph(self, k):
+        """the owner application changes what get_id_pack computes for the lent object, and lets go of it"""
+        o = self.objs[k]
+        if o is None:
+            return
+        if self.kind == "instance":
+            o.__class__ = Thing2
+        elif self.kind == "module":
+            sys.modules.pop(o.__name__, None)
+        else:
+            return
+        self.morphed.add(k)
         self.objs[k] = None
 
     def sync(self):
@@ -380,27 +571,41 @@ class Pair(object):
         for _ in range(len(self.sa.frames())):
             self.poll_owner()
         keep = []
-        for r in self.pendingA:
+        for r, boom in self.pendingA:
             if r._is_ready:
-                if r._is_exc or r._obj is not None:
+                if boom:
+                    if not r._is_exc:
+                        self.bad_results.append("a call of the raising function returned " + _show(r._obj))
+                elif r._is_exc or r._obj is not None:
                     self.bad_results.append(_show(r._obj))
             else:
-                keep.append(r)
+                keep.append((r, boom))
         self.pendingA = keep
 
-    def close(self, by_peer):
-        if by_peer:
-            self.B.close()
-            n = 0
-            while self.sa.frames() and not self.A.closed and n < 10000:
+    def close(self, by_peer, fault=0):
+        """fault 1: the before_closed hook raises; fault 2: the service's on_disconnect raises"""
+        self.hook_raises = fault == 1
+        self.disc_raises = fault == 2
+        self.close_fault, self.close_by_peer = fault, by_peer
+        try:
+            if by_peer:
+                self.B.close()
+                deadline = time.monotonic() + LONG
+                while self.sa.frames() and not self.A.closed and time.monotonic() < deadline:
+                    try:
+                        self.A.poll()
+                    except EOFError:    # the owner answers HANDLE_CLOSE after closing its own stream (serve_all swallows this)
+                        break
+            else:
                 try:
-                    self.A.poll()
-                except EOFError:    # the owner answers HANDLE_CLOSE after closing its own stream (serve_all swallows this)
-                    break
-                n += 1
-        else:
-            self.A.close()
+                    self.A.close()
+                except RuntimeError:
+                    if not fault:
+                        raise
+        finally:
+            self.hook_raises = self.disc_raises = False
         self.closed = True
+        gc.collect()        # _cleanup dropped the last traceback: see _collect_dropped_traceback
 
     def raw_request(self, handler, boxed):
         B = self.B
@@ -423,12 +628,21 @@ class Pair(object):
                 c.close()
             except Exception:
                 pass
+        if self.kind == "module":
+            for m in list(sys.modules):
+                if m.startswith("c10_lent_module_"):
+                    sys.modules.pop(m, None)
 
 
 # ------------------------------------------------------------------ histories
 # op encodings (lists, JSON/sx friendly); the model sees model_op(op)
-#  ["send", ks, nest] ["sendsync", ks, nest] ["dab"] ["dba"] ["drop1", k] ["dropall", k] ["use", c, args, ret]
-#  ["forget", k] ["sync"] ["close", by_peer] ["rawdel", k, n] ["rawlocal", k]   phase 2 only: ["dropidx", i]
+#  ["send", ks, nest] ["sendsync", ks, nest] ["sendraise", ks, nest] ["dab"] ["dba"] ["drop1", k] ["dropall", k]
+#  ["use", c, args, mode] (mode 0 value / 1 returns its first argument / 2 raises) ["forget", k] ["sync"]
+#  ["close", by_peer, fault] ["rawdel", k, n] ["rawlocal", k]   oracle-only histories also: ["dropidx", i] ["morph", k]
+
+def _mode(x):
+    return 1 if x is True else 0 if x is False else int(x)
+
 
 def model_op(op):
     t = op[0]
@@ -438,39 +652,54 @@ def model_op(op):
     if t == "dba": return [3]
     if t == "drop1": return [4, op[1]]
     if t == "dropall": return [5, op[1]]
-    if t == "use": return [6, op[1], list(op[2]), 1 if op[3] else 0]
+    if t == "use": return [6, op[1], list(op[2]), _mode(op[3])]
     if t == "forget": return [7, op[1]]
     if t == "sync": return [8]
-    if t == "close": return [9, 1 if op[1] else 0]
+    if t == "close": return [9, 1 if op[1] else 0, op[2] if len(op) > 2 else 0]
     if t == "rawdel": return [10, op[1], op[2]]
     if t == "rawlocal": return [11, op[1]]
+    if t == "sendraise": return [12, list(op[1])]
+    if t == "morph": return [13, op[1]]
     raise ValueError(op)
+
+
+AFTER_CLOSE = ("send", "sendsync", "sendraise", "forget", "morph")     # what still does something on a closed connection
 
 
 def apply_op(p, op):
     t = op[0]
+    if p.closed:
+        if t in ("send", "sendsync", "sendraise"): p.send(op[1], op[2], t == "sendraise")
+        elif t == "forget": p.forget(op[1])
+        elif t == "morph": p.morph(op[1])
+        return
     if t == "send": p.send(op[1], op[2])
     elif t == "sendsync": p.send(op[1], op[2]); p.sync()
+    elif t == "sendraise": p.send(op[1], op[2], True)
     elif t == "dab": p.poll_peer()
     elif t == "dba": p.poll_owner()
     elif t == "drop1": p.drop_one(op[1])
     elif t == "dropall": p.drop_all(op[1])
     elif t == "dropidx": p.drop_index(op[1])
-    elif t == "use": p.use(op[1], op[2], op[3])
+    elif t == "use": p.use(op[1], op[2], _mode(op[3]))
     elif t == "forget": p.forget(op[1])
+    elif t == "morph": p.morph(op[1])
     elif t == "sync": p.sync()
-    elif t == "close": p.close(op[1])
+    elif t == "close": p.close(op[1], op[2] if len(op) > 2 else 0)
     elif t == "rawdel": p.raw_del(op[1], op[2])
     elif t == "rawlocal": p.raw_local(op[1])
     else: raise ValueError(op)
 
 
-def gen_history(r, nobj, nops, flavour):
+def gen_history(r, nobj, nops, flavour, kind="function"):
     """flavour: 'valid' (only operations of a well-behaved peer), 'race' (biased towards release notices crossing
-    fresh references), 'boundary' (many repeats in one tuple, drops/uses of objects never lent, deliveries on empty
-    streams, early forget), 'malformed' (also release notices / local references the peer is not entitled to send)"""
+    fresh references), 'raising' (remote calls that raise on either side, so that the connections keep tracebacks),
+    'boundary' (many repeats in one tuple, drops/uses of objects never lent, deliveries on empty streams, early
+    forget), 'malformed' (also release notices / local references the peer is not entitled to send),
+    'morph' (oracle-only kinds: the lent object's key changes while it is lent)"""
     ops = []
     K = lambda: r.randrange(nobj)
+    morphed = set()
     for _ in range(nops):
         c = r.random()
         if flavour == "race":
@@ -478,9 +707,9 @@ def gen_history(r, nobj, nops, flavour):
             pat = r.choice([
                 [["send", [k] * r.choice([1, 1, 2, 3]), 0], ["dab"], ["dropall", k], ["send", [k], 0], ["dba"], ["dba"], ["dab"]],
                 [["send", [k], 0], ["send", [k], 0], ["dab"], ["drop1", k], ["dab"], ["dba"], ["dba"]],
-                [["send", [k, k], 1], ["dab"], ["use", k, [k], True], ["dropall", k], ["dba"], ["dba"], ["dba"], ["dab"]],
+                [["send", [k, k], 1], ["dab"], ["use", k, [k], 1], ["dropall", k], ["dba"], ["dba"], ["dba"], ["dab"]],
                 [["dropall", k], ["send", [k], 0], ["dab"], ["dba"], ["dab"]],
-                [["send", [k], 0], ["dab"], ["use", k, [], False], ["drop1", k], ["send", [k], 0], ["dba"], ["dba"], ["dba"]],
+                [["send", [k], 0], ["dab"], ["use", k, [], 0], ["drop1", k], ["send", [k], 0], ["dba"], ["dba"], ["dba"]],
             ])
             # perturb the pattern: drop or swap a step
             pat = [list(x) for x in pat]
@@ -492,6 +721,20 @@ def gen_history(r, nobj, nops, flavour):
             ops.extend(pat)
             if len(ops) >= nops:
                 break
+            continue
+        if flavour == "raising" and c < 0.22:
+            k = K()
+            if r.random() < 0.5:
+                # the peer's function raises after unboxing: one distinct object per call (the order in which several proxies
+                # of a dropped traceback are finalized is an interpreter detail)
+                ops.append(["sendraise", [k] * r.choice([1, 1, 2]), r.choice([0, 1])])
+            else:
+                ops.append(["use", k, [K() for _ in range(r.choice([0, 0, 1]))], 2])
+            continue
+        if flavour == "morph" and c < 0.06:
+            k = K()
+            morphed.add(k)
+            ops.append(["morph", k])
             continue
         if c < 0.24:
             n = r.choice([1, 1, 1, 2, 2, 3]) if flavour != "boundary" else r.choice([0, 1, 2, 5, 9, 17])
@@ -509,7 +752,11 @@ def gen_history(r, nobj, nops, flavour):
             ops.append(["dropall", K()])
         elif c < 0.90:
             na = r.choice([0, 0, 1, 1, 2])
-            ops.append(["use", K(), [K() for _ in range(na)], r.random() < 0.5])
+            args = [K() for _ in range(na)]
+            mode = 1 if r.random() < 0.5 else 0
+            if mode == 1 and args and args[0] in morphed:
+                mode = 0        # re-lending an object whose key changed creates a second identity: not part of this property
+            ops.append(["use", K(), args, mode])
         elif c < 0.93:
             ops.append(["sync"])
         elif c < 0.95:
@@ -519,19 +766,33 @@ def gen_history(r, nobj, nops, flavour):
         if flavour == "malformed" and r.random() < 0.08:
             ops.append(["rawdel", K(), r.choice([1, 1, 1, 2, 3, 0, -1, 7])] if r.random() < 0.7 else ["rawlocal", K()])
     ops = ops[:nops]
-    # end game
+    # end game: close (sometimes with a failing hook), and keep using the closed connection
     e = r.random()
-    if e < 0.2:
-        ops.append(["close", r.random() < 0.5])
+    if e < 0.3:
+        fault = r.choice([0, 0, 0, 1, 2, 2])
+        ops.append(["close", r.random() < 0.5, fault])
+        for _ in range(r.choice([0, 0, 1, 2, 4])):
+            c = r.random()
+            if c < 0.5:
+                ops.append([r.choice(["send", "send", "sendsync", "sendraise"]), [K() for _ in range(r.choice([1, 1, 2]))], r.choice([0, 1])])
+            elif c < 0.7:
+                ops.append(["forget", K()])
+            else:
+                ops.append(r.choice([["dab"], ["dba"], ["sync"], ["dropall", K()], ["use", K(), [], 0]]))
+        ops += [["forget", k] for k in range(nobj)]
     return ops
 
 
 def epilogue(nobj):
     """exercise every live proxy, then drop everything, let the notices be processed, and forget the objects"""
-    ops = [["use", k, [], False] for k in range(nobj)] + [["sync"], ["sync"]]
+    ops = [["use", k, [], 0] for k in range(nobj)] + [["sync"], ["sync"]]
     ops += [["dropall", k] for k in range(nobj)] + [["sync"], ["sync"]]
     ops += [["forget", k] for k in range(nobj)]
     return ops
+
+
+def has_close(ops):
+    return any(o[0] == "close" for o in ops)
 
 
 # ------------------------------------------------------------------ oracle and correspondence
@@ -545,27 +806,41 @@ def observe(p):
             "closed": bool(p.A.closed)}
 
 
-def oracle(ctx, p, st, case, step, valid, n_exc):
-    """the property's statement on the real objects; returns a list of signatures reported"""
+CLOSE_FAULT = {0: "", 1: ":before_closed-raised", 2: ":on_disconnect-raised"}
+
+
+def oracle(ctx, p, st, case, step, valid):
+    """the property's statement on the real objects; returns the signatures after which the history is abandoned"""
     sigs = []
 
-    def viol(sig, what, observed, expected):
-        sigs.append(sig)
+    def viol(sig, what, observed, expected, fatal=True):
+        if p.morphed and not st["closed"]:
+            # the history changed a lent object's key; whatever goes wrong afterwards is reported under one signature
+            observed = {"underlying": sig, "detail": observed, "objects_whose_key_changed": sorted(p.morphed)}
+            sig, what = "release-lost-after-identity-change", ("the lent object's key (class / module registration) changed while it was lent; "
+                                                               "its release notice is then lost: " + what)
+        if fatal:
+            sigs.append(sig)
         ctx.violation(sig, dict(case, failed_step=step), observed=observed, expected=expected, what=what)
     if st["closed"]:
         left = [k for k, s in enumerate(st["slots"]) if s is not None] + p.foreign_keys()
-        if left or len(p.A._local_objects._dict):
-            viol("close-leaves-entries", "after closing, the owner's connection still references lent objects",
+        if p.empty_after_close is None:
+            p.empty_after_close = not (left or len(p.A._local_objects._dict))
+            if not p.empty_after_close:
+                viol("close-leaves-entries" + CLOSE_FAULT[p.close_fault], "after closing, the owner's connection still references lent objects"
+                     + (" (a hook raised while closing)" if p.close_fault else ""), {"slots": st["slots"], "by_peer": p.close_by_peer}, "empty table")
+        elif p.empty_after_close and (left or len(p.A._local_objects._dict)):
+            viol("entry-added-after-close", "lending through the closed connection was refused, yet the object stays referenced by it for ever",
                  {"slots": st["slots"]}, "empty table")
         return sigs
     if not valid:
         return sigs
-    if n_exc:
-        viol("keyerror-at-owner", "the owner answered a well-behaved peer's release notice / request through a proxy with an exception",
-             {"exception_replies": n_exc, "step": step}, "every LOCAL_REF and release notice finds its slot")
+    if p.sa.n_keyerr:
+        viol("keyerror-at-owner", "the owner answered a well-behaved peer's release notice / request through a proxy with a KeyError",
+             {"keyerror_replies": p.sa.n_keyerr, "step": step}, "every LOCAL_REF and release notice finds its slot")
     for k in range(p.nobj):
         S = 0 if st["slots"][k] is None else st["slots"][k] + 1
-        refs = sum(m[1].count(k) for m in st["qab"] if m[0] == "call") + sum(1 for m in st["qab"] if m[0] == "replyref" and m[1] == k)
+        refs = sum(m[1].count(k) for m in st["qab"] if m[0] in ("call", "callraise")) + sum(1 for m in st["qab"] if m[0] == "replyref" and m[1] == k)
         dels = sum(m[2] for m in st["qba"] if m[0] == "del" and m[1] == k) + sum(1 for m in st["qba"] if m[0] == "del0" and m[1] == k)
         uses = sum(1 for m in st["qba"] if m[0] == "use" and k in m[1])
         live = sum(st["all_prox"][k])
@@ -579,12 +854,18 @@ def oracle(ctx, p, st, case, step, valid, n_exc):
             viol("count-mismatch", "owner's count differs from references in flight + live proxy counts + release notices in flight",
                  {"object": k, "owner_accounts_for": S, "refs_in_flight": refs, "live_proxy_counts": st["all_prox"][k],
                   "dels_in_flight": dels}, "equal")
-        if st["prox"][k] is not None and st["holds"][k] == 0:
+        if len(st["all_prox"][k]) > len(set(id(x) for x in p.held if p.idmap.get(_idp(x)) == k)):
             gc.collect()
-            if p.proxy_counts()[k][0] is not None:
-                viol("proxy-outlives-its-references", "the peer application dropped every reference to a proxy, but the proxy stays alive in "
-                     "the peer's connection, so its release notice is never sent", {"object": k, "proxy_count": st["prox"][k]},
-                     "proxy finalized, release notice in flight")
+            for rc, pinned in p.unheld_proxies(k):
+                if pinned:
+                    viol("proxy-pinned-by-last-traceback", "a call served by the peer raised; the peer connection's _last_traceback keeps the proxies "
+                         "that were its arguments alive after the peer application dropped them, so their release notices are not sent "
+                         "(until the next failing call or the close)", {"object": k, "proxy_count": rc},
+                         "proxy finalized, release notice in flight", fatal=False)
+                else:
+                    viol("proxy-outlives-its-references", "the peer application dropped every reference to a proxy, but the proxy stays alive in "
+                         "the peer's connection, so its release notice is never sent", {"object": k, "proxy_count": rc},
+                         "proxy finalized, release notice in flight")
         if (held or refs or dels or uses) and not st["alive"][k]:
             viol("dead-while-held", "a lent object died although the peer can still reach it", {"object": k}, "alive")
         if not held and not refs and not dels:
@@ -593,18 +874,27 @@ def oracle(ctx, p, st, case, step, valid, n_exc):
                      {"object": k, "slot": st["slots"][k]}, "entry absent")
             elif p.objs[k] is None and st["alive"][k]:
                 gc.collect()
-                if p.wr[k]() is not None:
-                    viol("object-kept-alive-after-release", "released and forgotten by its owner, yet something keeps the object alive",
-                         {"object": k}, "dead")
+                o = p.wr[k]()
+                if o is not None:
+                    if tb_references(p.A._last_traceback, o):
+                        viol("object-pinned-by-last-traceback", "a call on the lent object raised; the owner connection's _last_traceback keeps the "
+                             "object alive after it was released and forgotten (until the next failing call or the close)", {"object": k},
+                             "dead", fatal=False)
+                    else:
+                        viol("object-kept-alive-after-release", "released and forgotten by its owner, yet something keeps the object alive",
+                             {"object": k}, "dead")
+                del o
                 st["alive"][k] = p.wr[k]() is not None
-    if p.foreign_keys():
+    if p.foreign_keys() and not p.morphed:
         viol("foreign-entry", "the owner's table holds an object that was never lent", {"keys": repr(p.foreign_keys())[:200]}, "none")
     if p.bad_results:
-        viol("send-result-not-none", "a lending call returned something else than None", p.bad_results[:3], "None")
-    for (c, is_exc, val) in p.use_results:
-        if is_exc or (val != "ref" and val != c):
+        viol("send-result-unexpected", "a lending call returned something else than None (or a call of the raising function did not raise)",
+             p.bad_results[:3], "None")
+    for (c, mode, is_exc, val) in p.use_results:
+        good = (is_exc and val == "ValueError") if mode == 2 else (not is_exc and (val == "ref" or val == c))
+        if not good:
             viol("proxy-unusable", "an operation through a live proxy failed or reached another object",
-                 {"proxy": c, "is_exc": is_exc, "value": _show(val)[:80]}, "result of object %d" % c)
+                 {"proxy": c, "mode": mode, "is_exc": is_exc, "value": _show(val)[:80]}, "result of object %d" % c)
     p.use_results[:] = []
     return sigs
 
@@ -644,16 +934,17 @@ def run_history(ctx, case, snaps):
     """drive one history on a real pair; oracle after every step; correspondence when snaps is not None"""
     p = Pair(case["nobj"], case.get("kind", "function"))
     valid = True
-    stats = {"refs_delivered": 0, "dels_served": 0, "uses_served": 0, "crossings": 0}
+    stats = {"refs_delivered": 0, "dels_served": 0, "uses_served": 0, "crossings": 0, "raising_calls_served": 0, "ops_after_close": 0}
     ok = True
     try:
         for i, op in enumerate(case["ops"]):
-            if p.closed:
-                break       # closing ends a history (the model ignores everything after it)
             if op[0] in ("rawdel", "rawlocal"):
                 valid = False
-            before_ab = p.in_flight(True) if op[0] in ("dab", "dba") else None
-            before_ba = p.in_flight(False) if op[0] in ("dab", "dba") else None
+            if p.closed:
+                stats["ops_after_close"] += 1
+            look = op[0] in ("dab", "dba") and not p.closed
+            before_ab = p.in_flight(True) if look else None
+            before_ba = p.in_flight(False) if look else None
             try:
                 apply_op(p, op)
             except Exception as e:
@@ -665,19 +956,20 @@ def run_history(ctx, case, snaps):
                 break
             if op[0] == "dab" and before_ab:
                 m = before_ab[0]
-                stats["refs_delivered"] += len(m[1]) if m[0] == "call" else (1 if m[0] == "replyref" else 0)
+                stats["refs_delivered"] += len(m[1]) if m[0] in ("call", "callraise") else (1 if m[0] == "replyref" else 0)
+                stats["raising_calls_served"] += m[0] == "callraise"
             if op[0] == "dba" and before_ba:
                 m = before_ba[0]
                 if m[0] == "del":
                     stats["dels_served"] += 1
-                    if any(x[0] == "call" and m[1] in x[1] or x[0] == "replyref" and x[1] == m[1] for x in before_ab):
+                    if any(x[0] in ("call", "callraise") and m[1] in x[1] or x[0] == "replyref" and x[1] == m[1] for x in before_ab):
                         stats["crossings"] += 1
                 elif m[0] == "use":
                     stats["uses_served"] += 1
+                    stats["raising_calls_served"] += m[2] == 2
             try:
                 st = observe(p)
-                n_exc_total = p.sa.n_exc      # exception replies the owner has sent so far
-                sigs = oracle(ctx, p, st, case, i, valid, n_exc_total if valid else 0)
+                sigs = oracle(ctx, p, st, case, i, valid)
             except Exception as e:
                 ctx.violation("state-not-observable:" + C.exc_enum(e), dict(case, failed_step=i), observed="%s: %s" % (type(e).__name__, str(e)[:300]),
                               expected="owner table / proxy cache / frames in flight can be read", what="the connection pair is in a state the harness cannot read after %r" % (op,))
@@ -685,14 +977,18 @@ def run_history(ctx, case, snaps):
             if snaps is not None and ok:
                 ctx.model_traces += 1
                 ok = compare(ctx, st, snaps[i], i, op, case)
-                if ok and not st["closed"] and int(snaps[i][7]) != n_exc_total:
-                    ctx.tie_broken("correspondence:errors", "step %d %r: model errs %r impl exception replies %r; case %s"
-                                   % (i, op, snaps[i][7], n_exc_total, C.sx_dumps(case_sx(case))[:600]))
+                if ok and not st["closed"] and int(snaps[i][7]) != p.sa.n_keyerr:
+                    ctx.tie_broken("correspondence:errors", "step %d %r: model errs %r impl KeyError replies %r; case %s"
+                                   % (i, op, snaps[i][7], p.sa.n_keyerr, C.sx_dumps(case_sx(case))[:600]))
                     ok = False
             if sigs:
                 break
-        if p.closed and not any(v[0].startswith("close-") for v in ctx.violations):
+        if p.closed and p.empty_after_close and not p.A._local_objects._dict:
             # nothing of the closed connection keeps the lent objects alive
+            for o in p.objs:
+                if isinstance(o, types.ModuleType):
+                    sys.modules.pop(o.__name__, None)
+            o = None
             p.objs = [None] * p.nobj
             if any(p.alive()):
                 gc.collect()
@@ -750,30 +1046,36 @@ def get_params(ctx):
 
 
 def nontrivial(stats):
-    return stats["refs_delivered"] >= 1 and (stats["dels_served"] + stats["uses_served"]) >= 1
+    return stats["refs_delivered"] >= 1 and (stats["dels_served"] + stats["uses_served"] + stats["ops_after_close"]) >= 1
 
 
 def run_cases(ctx, model, cases):
     res = model.batch([case_sx(c) for c in cases]) if model else None
     gc.collect()
     gc.freeze()     # the (large) model answers need not be traversed by the collections done while checking liveness
+    was = gc.isenabled()
+    gc.disable()    # cyclic garbage (dropped tracebacks) is collected at defined points only, see Pair._collect_dropped_traceback
     try:
         _run_cases(ctx, cases, res)
     finally:
+        if was:
+            gc.enable()
         gc.unfreeze()
 
 
 def _run_cases(ctx, cases, res):
-    t0 = time.time()
+    slow = 0
     for i, c in enumerate(cases):
-        if ctx.violations and time.time() - t0 > 40:
+        if ctx.violations and slow >= 3:
             ctx.count("histories-skipped-after-violation", len(cases) - i)     # the check has failed already; do not wait for stalled peers
             break
+        t1 = time.time()
         snaps = res[i] if res is not None and c.get("kind", "function") == "function" else None
         if snaps is not None and (not isinstance(snaps, list) or len(snaps) != len(c["ops"])):
             ctx.tie_broken("correspondence:model-output", "unexpected model answer %r" % (snaps,)[:300])
             snaps = None
         stats = run_history(ctx, c, snaps)
+        slow += time.time() - t1 > 10
         ctx.case(("hist", c.get("kind", "function"), c["nobj"], repr(c["ops"])), nontrivial=nontrivial(stats),
                  sample={"objects": c["nobj"], "kind": c.get("kind", "function"), "flavour": c.get("flavour"), "ops": len(c["ops"]),
                          "first_ops": c["ops"][:8], "stats": stats})
@@ -787,13 +1089,35 @@ CORPUS = [
     # the race of the property text and its variations
     (1, [["send", [0, 0], 0], ["dab"], ["dropall", 0], ["send", [0], 0], ["dba"], ["dba"], ["dab"]]),
     (1, [["send", [0], 0], ["dab"], ["dropall", 0], ["send", [0], 0], ["dba"], ["dba"], ["dab"]]),
-    (1, [["send", [0], 0], ["send", [0], 0], ["dab"], ["dropall", 0], ["dba"], ["dba"], ["dab"], ["use", 0, [], False], ["sync"]]),
-    (2, [["send", [0, 1, 0], 2], ["dab"], ["use", 0, [1], True], ["dropall", 1], ["dba"], ["dba"], ["dba"], ["dab"], ["dab"]]),
+    (1, [["send", [0], 0], ["send", [0], 0], ["dab"], ["dropall", 0], ["dba"], ["dba"], ["dab"], ["use", 0, [], 0], ["sync"]]),
+    (2, [["send", [0, 1, 0], 2], ["dab"], ["use", 0, [1], 1], ["dropall", 1], ["dba"], ["dba"], ["dba"], ["dab"], ["dab"]]),
     (1, [["sendsync", [0] * 9, 1], ["drop1", 0]] + [["drop1", 0]] * 8 + [["dba"], ["dba"]]),
     (2, [["send", [0, 1], 0], ["dab"], ["forget", 0], ["dba"], ["dropall", 0], ["dba"], ["dba"]]),
-    (2, [["send", [0, 1], 0], ["dab"], ["close", False]]),
-    (2, [["send", [0, 1], 0], ["dab"], ["dropall", 1], ["send", [1], 0], ["close", True]]),
-    (1, [["dab"], ["dba"], ["drop1", 0], ["dropall", 0], ["use", 0, [0], True], ["sync"], ["send", [], 0], ["sync"]]),
+    (2, [["send", [0, 1], 0], ["dab"], ["close", False, 0]]),
+    (2, [["send", [0, 1], 0], ["dab"], ["dropall", 1], ["send", [1], 0], ["close", True, 0]]),
+    (1, [["dab"], ["dba"], ["drop1", 0], ["dropall", 0], ["use", 0, [0], 1], ["sync"], ["send", [], 0], ["sync"]]),
+    # a call on the lent object raises: the owner's connection keeps the traceback
+    (1, [["sendsync", [0], 0], ["use", 0, [], 2], ["sync"], ["sync"], ["dropall", 0], ["sync"], ["sync"], ["forget", 0]]),
+    # the peer's function raises: the peer's connection keeps the traceback and with it the proxy
+    (1, [["sendraise", [0], 0], ["sync"], ["sync"], ["sendraise", [], 0], ["sync"], ["sync"]]),
+    (2, [["sendraise", [0, 0], 1], ["dab"], ["send", [0], 0], ["dab"], ["dropall", 0], ["sendraise", [1], 0], ["dab"], ["dba"], ["dba"], ["dba"]]),
+    # closing while a hook raises; lending through the closed connection
+    (2, [["sendsync", [0, 1], 0], ["close", False, 1], ["forget", 0], ["forget", 1]]),
+    (2, [["sendsync", [0, 1], 0], ["close", False, 2], ["forget", 0], ["forget", 1]]),
+    (2, [["sendsync", [0, 1], 0], ["close", True, 2], ["forget", 0], ["forget", 1]]),
+    (2, [["sendsync", [0], 0], ["close", False, 0], ["send", [0, 1], 0], ["sendsync", [1], 1], ["forget", 0], ["forget", 1]]),
+    (1, [["sendsync", [0], 0], ["close", True, 0], ["send", [0], 0], ["forget", 0]]),
+]
+
+CORPUS2 = [
+    # two same-named classes held at overlapping times
+    ("class", 2, [["send", [0], 0], ["dab"], ["send", [1], 0], ["dab"], ["use", 0, [], 0], ["use", 1, [], 0], ["sync"], ["sync"],
+                  ["dropall", 0], ["sync"], ["send", [0], 0], ["sync"], ["sync"]]),
+    ("class", 3, [["sendsync", [0, 1, 2, 1], 1], ["dropall", 1], ["send", [1, 0], 0], ["dba"], ["dba"], ["dab"]]),
+    # the key of a lent object changes before the peer releases it
+    ("instance", 1, [["sendsync", [0], 0], ["morph", 0], ["dropall", 0], ["sync"], ["sync"]]),
+    ("module", 1, [["sendsync", [0], 0], ["morph", 0], ["dropall", 0], ["sync"], ["sync"]]),
+    ("module", 2, [["sendsync", [0, 1, 0], 0], ["drop1", 0], ["send", [1], 0], ["dab"], ["dropall", 1], ["sync"]]),
 ]
 
 
@@ -803,44 +1127,54 @@ def run(ctx):
     model = model if model.available() else None
     params = get_params(ctx)
     ctx.coverage_extra["rule"] = (
-        "histories over 1-4 lent objects generated from the seeded PRNG in four flavours (valid / biased to release notices crossing fresh "
-        "references / boundary: 0..17 repeats in one tuple, operations on never-lent objects, deliveries on empty streams / malformed: release "
-        "notices and local references the peer is not entitled to send), each followed by an epilogue that uses every live proxy, drops "
-        "everything, drains and forgets the objects, or by a close from either side; plus user-class-instance histories (nested HANDLE_INSPECT) "
+        "histories over 1-4 lent objects generated from the seeded PRNG in five flavours (valid / biased to release notices crossing fresh "
+        "references / raising: remote calls that raise at the owner or at the peer / boundary: 0..17 repeats in one tuple, operations on "
+        "never-lent objects, deliveries on empty streams / malformed: release notices and local references the peer is not entitled to send), "
+        "each followed by an epilogue that uses every live proxy, drops everything, drains and forgets the objects, or by a close from either side "
+        "(also with a raising before_closed hook or on_disconnect) followed by further use of the closed connection; plus oracle-only histories "
+        "with user-class instances, same-named classes and modules (nested HANDLE_INSPECT), also with the object's key changing while lent, "
         "and unit-level call sequences on RefCountingColl. A history is non-trivial when at least one reference was delivered to the peer and "
-        "at least one release notice or request through a proxy was served by the owner; distinct by operation list")
+        "at least one release notice or request through a proxy was served by the owner (or the closed connection was used again); distinct by "
+        "operation list")
     ctx.coverage_extra["model_params"] = params
     cases = []
     for nobj, ops in CORPUS:
         body = list(ops)
-        if not any(o[0] == "close" for o in body):
+        if not has_close(body):
             body += epilogue(nobj)
         cases.append({"nobj": nobj, "ops": body, "flavour": "corpus", "params": params})
     n_hist = 1500 if ctx.quick else 6000
     for i in range(n_hist):
-        flavour = ("valid", "valid", "race", "race", "boundary", "malformed")[i % 6]
+        flavour = ("valid", "raising", "race", "race", "boundary", "malformed", "valid", "raising")[i % 8]
         nobj = r.choice([1, 2, 2, 3, 4])
         if ctx.quick:
             nops = r.choice([6, 12, 20, 30])
         else:
             nops = r.choice([10, 30, 30, 60, 120, 300])
         ops = gen_history(r, nobj, nops, flavour)
-        if not ops or ops[-1][0] != "close":
+        if not has_close(ops):
             ops += epilogue(nobj)
         cases.append({"nobj": nobj, "ops": ops, "flavour": flavour, "params": params})
     run_cases(ctx, model, cases)
-    # user-class instances: oracle only
+    # user-class instances, same-named classes, modules: oracle only
     cases2 = []
-    n2 = 150 if ctx.quick else 900
+    for kind, nobj, ops in CORPUS2:
+        body = list(ops)
+        if not has_close(body):
+            body += epilogue(nobj)
+        cases2.append({"nobj": nobj, "ops": body, "flavour": "corpus", "kind": kind})
+    n2 = 180 if ctx.quick else 1200
     for i in range(n2):
+        kind = ("instance", "class", "instance", "class", "module", "instance")[i % 6]
+        flavour = ("valid", "race", "boundary", "morph" if kind != "class" else "valid", "raising")[i % 5]
         nobj = r.choice([1, 2, 3])
-        ops = gen_history(r, nobj, r.choice([8, 16, 30]) if ctx.quick else r.choice([16, 30, 80]), ("valid", "race", "boundary")[i % 3])
+        ops = gen_history(r, nobj, r.choice([8, 16, 30]) if ctx.quick else r.choice([16, 30, 80]), flavour, kind)
         for j, o in enumerate(ops):
             if o[0] == "drop1" and r.random() < 0.5:
                 ops[j] = ["dropidx", r.randrange(1000)]
-        if not ops or ops[-1][0] != "close":
+        if not has_close(ops):
             ops += epilogue(nobj)
-        cases2.append({"nobj": nobj, "ops": ops, "flavour": ("valid", "race", "boundary")[i % 3], "kind": "instance"})
+        cases2.append({"nobj": nobj, "ops": ops, "flavour": flavour, "kind": kind})
     run_cases(ctx, None, cases2)
     # unit level
     n3 = 400 if ctx.quick else 4000
@@ -867,4 +1201,4 @@ def replay(ctx, rep):
     if "ops" in case:
         c = {"nobj": case["nobj"], "ops": case["ops"], "flavour": case.get("flavour", "replay"), "kind": case.get("kind", "function"),
              "params": get_params(ctx)}
-        run_cases(ctx, model, [c])
+        run_cases(ctx, model if c["kind"] == "function" else None, [c])
